@@ -11,6 +11,7 @@ import (
 	"go/types"
 	"os"
 	"sort"
+	"sync"
 
 	"golang.org/x/tools/go/ssa"
 )
@@ -97,7 +98,19 @@ func constraintSet(op token.Token, k int64, u ival) iset {
 
 // tableOf, when set, gives the constant entries of a package-level array that is declared with a literal and
 // written nowhere else (index -> value); it lets a guard `table[v] != 0` constrain v.
-var tableOf func(g *ssa.Global) (map[int64]int64, bool)
+// One entry per loaded program: controls analyse several programs at the same time.
+var tableProgs sync.Map // *ssa.Program -> func(*ssa.Global) (map[int64]int64, bool)
+
+func tableOf(g *ssa.Global) (map[int64]int64, bool) {
+	if g == nil || g.Pkg == nil {
+		return nil, false
+	}
+	f, ok := tableProgs.Load(g.Pkg.Prog)
+	if !ok {
+		return nil, false
+	}
+	return f.(func(*ssa.Global) (map[int64]int64, bool))(g)
+}
 
 // tableIndexed: x is table[v] (a load of &table[v], v possibly converted) for a package-level array.
 func tableIndexed(x ssa.Value, v ssa.Value) (*ssa.Global, bool) {
@@ -167,7 +180,7 @@ func guardSetD(g guard, v ssa.Value, u ival, depth int) (iset, bool) {
 	if sameVal(x, v) {
 		return constraintSet(op, k, u), true
 	}
-	if tab, isT := tableIndexed(x, v); isT && tableOf != nil {
+	if tab, isT := tableIndexed(x, v); isT {
 		ents, known := tableOf(tab)
 		if !known {
 			return nil, false
